@@ -560,6 +560,73 @@ def _reachable_from_pre(prog, eff, concrete, func) -> bool:
     return func in cache[concrete]
 
 
+
+def format_string_obligations(ctx, rep, rule, only_funcs=None, none_text=None):
+    """No text that came with the request (or was read back from an entry) is used *as* a format string: `X % args` and
+    `X.format(...)` with request text inside X fail - TypeError, ValueError, KeyError, IndexError - for a selector that holds `%` or braces."""
+    prog = ctx.prog
+    eff = ctx._cache.get("eff") or Effects(prog, ctx.resolver)
+    ctx._cache["eff"] = eff
+    taint = ctx._cache.get("taint")
+    if taint is None:
+        taint = Taint(ctx, eff)
+        ctx._cache["taint"] = taint
+
+    def const_text(e, f, depth=0) -> bool:
+        """built from literals only (a name assigned literals only counts)"""
+        if isinstance(e, ast.Constant):
+            return True
+        if isinstance(e, ast.BinOp) and isinstance(e.op, ast.Add):
+            return const_text(e.left, f, depth) and const_text(e.right, f, depth)
+        if isinstance(e, ast.Name) and depth < 3:
+            vals = [n.value for n in ast.walk(f.node) if isinstance(n, ast.Assign) and any(isinstance(t, ast.Name) and t.id == e.id for t in n.targets)]
+            if vals and all(const_text(v, f, depth + 1) for v in vals) and e.id not in f.params:
+                return True
+            g = f.module.globals.get(e.id)
+            return bool(g) and e.id not in f.params and not vals and all(isinstance(x, ast.Constant) for x in g)
+        if isinstance(e, ast.Attribute) and dotted(e.value) in ("self", "cls") and f.cls is not None:
+            for c in prog.mro(f.cls):
+                if not isinstance(c, str) and e.attr in c.attrs:
+                    return isinstance(c.attrs[e.attr], ast.Constant)
+        return False
+
+    def numeric(e) -> bool:
+        if isinstance(e, ast.Constant):
+            return isinstance(e.value, (int, float)) and not isinstance(e.value, bool)
+        if isinstance(e, ast.Call):
+            return (dotted(e.func) or "") in ("int", "len", "ord", "float", "abs", "hash", "id", "time.time")
+        if isinstance(e, ast.BinOp) and not isinstance(e.op, ast.Mod):
+            return numeric(e.left) and numeric(e.right)
+        return False
+
+    n = 0
+    for f in taint.funcs:
+        if ".tests" in f.module.name or f.module.name.endswith("testutil"):
+            continue
+        if only_funcs is not None and f not in only_funcs:
+            continue
+        for node in ast.walk(f.node):
+            fmt = None
+            if isinstance(node, ast.BinOp) and isinstance(node.op, ast.Mod):
+                fmt = node.left
+            elif isinstance(node, ast.Call) and isinstance(node.func, ast.Attribute) and node.func.attr in ("format", "format_map"):
+                fmt = node.func.value
+            if fmt is None or const_text(fmt, f) or numeric(fmt):
+                continue
+            if isinstance(node, ast.BinOp) and numeric(node.right) and not isinstance(node.right, ast.Constant):
+                continue
+            if not taint.is_tainted(fmt, f):
+                continue
+            n += 1
+            tries = enclosing_tries(f.node, node)
+            guarded = any(all(any(catches(h, x) for h in tr.handlers) for x in ("TypeError", "ValueError")) for tr in tries)
+            rep.add(rule, f"{f.qualname}: {norm(node)[:70]}", guarded, ctx.where(f, node),
+                    "" if guarded else f"`{norm(fmt)[:60]}` holds request text and is used as the format string: a selector with a per cent sign (or a brace) makes "
+                    "the formatting fail (TypeError / ValueError) or consume the wrong argument", key=f"{rule}|{f.qualname}|{norm(node)[:60]}")
+    if not n:
+        rep.ok(rule, none_text or "request text is only ever an argument of a format operation, never the format string", "pygopherd", "", key=f"{rule}|none")
+
+
 # ------------------------------------------------------------------------ check
 def request_path_functions(ctx):
     """(func, concrete) pairs analysed by R03b."""
@@ -618,6 +685,13 @@ def check(ctx, rep):
              "guard for TypeError: such parsers return objects that do not compare with every other one (a date with and without a time zone), and "
              "the error would leave handle() without a response", floor=0)
     parsed_value_obligations(ctx, rep, "R03k")
+    rep.rule("R03l", "= R12i: the not-found exception can always be constructed and formatted, whatever characters the selector holds (it logs its own "
+             "text in its constructor; a TypeError/ValueError from there escapes every handle() and leaves the client without a reply)", floor=1)
+    from .c12 import notfound_text_obligations
+    notfound_text_obligations(ctx, rep, "R03l")
+    rep.rule("R03m", "request text (selector, search string, header values, what was read back from an entry) is never the format string of a "
+             "`%` or `.format()` operation, only an argument of one", floor=1)
+    format_string_obligations(ctx, rep, "R03m")
     rep.rule("R03i", "partial operations on text read from content files (link files, gophermaps, sidecars): index, unpack, int() are guarded", floor=4)
     rep.rule("R03e", "mailbox constructors (fail with mailbox.Error, not OSError) are guarded or converted", floor=2)
     rep.assume("served content (gophermaps, link files, mailboxes, archives) is well formed: partial operations on file content are not tracked")
